@@ -321,6 +321,25 @@ def ffi_flow():
     cred = H(); chk(fn('anoncreds_create_credential', [H, H, H, H, FfiList, FfiList, FfiList, C.c_void_p, C.POINTER(H)])(
         cd, cdp, offer, req, names, raws, FfiList(0, None), None, C.byref(cred)), 'create_credential')
     cred2 = H(); chk(fn('anoncreds_process_credential', [H, H, C.c_char_p, H, H, C.POINTER(H)])(cred, meta, secret, cd, 0, C.byref(cred2)), 'process_credential')
+    # one bad handle at a time in an otherwise valid call — required and OPTIONAL positions (an optional handle is 0 when absent;
+    # a freed, unknown or wrong-typed one is an error, not "absent")
+    def probe(entry, f, args, positions):
+        global cases
+        for pos, pname in positions:
+            for kind, bad in (('freed', freed_h), ('bogus', BOGUS), ('wrongtype', presreq_h)):
+                a = list(args); a[pos] = bad
+                tmp = H(); a[-1] = C.byref(tmp)
+                r = in_child(lambda: f(*a))
+                cases += 1; count('c17:one-bad-handle:' + kind)
+                c = dict(kind='one-bad-handle', entry=entry, param=pname, handle=kind)
+                if r[0] == 'signal':
+                    fail('a stale / unknown / wrong-typed handle crashed the process', c, dict(signal=r[1]))
+                elif r[1] == 0:
+                    fail('a stale / unknown / wrong-typed handle in an otherwise valid call was accepted (returned Success)', c, dict(rc=0))
+    probe('anoncreds_process_credential', fn('anoncreds_process_credential', [H, H, C.c_char_p, H, H, C.c_void_p]),
+          [cred.value, meta.value, secret, cd.value, 0, None], [(0, 'cred'), (1, 'cred_req_metadata'), (3, 'cred_def'), (4, 'rev_reg_def (optional)')])
+    probe('anoncreds_create_credential', fn('anoncreds_create_credential', [H, H, H, H, FfiList, FfiList, FfiList, C.c_void_p, C.c_void_p]),
+          [cd.value, cdp.value, offer.value, req.value, names, raws, FfiList(0, None), None, None], [(0, 'cred_def'), (1, 'cred_def_private'), (2, 'cred_offer'), (3, 'cred_request')])
     nonce = C.c_char_p(); chk(fn('anoncreds_generate_nonce', [C.POINTER(C.c_char_p)])(C.byref(nonce)), 'generate_nonce')
     reqj = {"nonce": nonce.value.decode(), "name": "r", "version": "1.0", "requested_attributes": {"a1": {"name": "name"}},
             "requested_predicates": {"p1": {"name": "age", "p_type": ">=", "p_value": 18}}}
@@ -332,6 +351,20 @@ def ffi_flow():
     pres = H()
     chk(fn('anoncreds_create_presentation', [H, FfiList, FfiList, FfiList, FfiList, C.c_char_p, FfiList, FfiList, FfiList, FfiList, C.POINTER(H)])(
         prh, FfiList(1, C.cast(entries, C.c_void_p)), FfiList(2, C.cast(proves, C.c_void_p)), FfiList(0, None), FfiList(0, None), secret, sl, sids, cl, cids, C.byref(pres)), 'create_presentation')
+    # the same for the handles inside the credential entries of create_presentation: the credential and the OPTIONAL revocation state
+    global cases
+    cp = fn('anoncreds_create_presentation', [H, FfiList, FfiList, FfiList, FfiList, C.c_char_p, FfiList, FfiList, FfiList, FfiList, C.c_void_p])
+    for field in ('credential', 'rev_state (optional)'):
+        for kind, bad in (('freed', freed_h), ('bogus', BOGUS), ('wrongtype', presreq_h)):
+            ent = (CredEntry * 1)(CredEntry(bad, -1, 0) if field == 'credential' else CredEntry(cred2.value, 5, bad))
+            tmp = H()
+            r = in_child(lambda: cp(prh, FfiList(1, C.cast(ent, C.c_void_p)), FfiList(2, C.cast(proves, C.c_void_p)), FfiList(0, None), FfiList(0, None), secret, sl, sids, cl, cids, C.byref(tmp)))
+            cases += 1; count('c17:one-bad-handle:' + kind)
+            c = dict(kind='one-bad-handle', entry='anoncreds_create_presentation', param='credentials[0].' + field, handle=kind)
+            if r[0] == 'signal':
+                fail('a stale / unknown / wrong-typed handle crashed the process', c, dict(signal=r[1]))
+            elif r[1] == 0:
+                fail('a stale / unknown / wrong-typed handle in an otherwise valid call was accepted (returned Success)', c, dict(rc=0))
     res = C.c_int8(-1)
     chk(verify_legacy(pres, prh, sl, sids, cl, cids, FfiList(0, None), FfiList(0, None), FfiList(0, None), FfiList(0, None), C.byref(res)), 'verify_presentation')
     out = dict(format='legacy', request=reqj, presentation=json.loads(to_json(pres.value)),
